@@ -7,6 +7,7 @@
 import MinLex.Model.Env
 import MinLex.Model.Alloc
 import MinLex.Model.ParseW
+import MinLex.Model.Iter
 open MinLex
 
 def hexVal (c : Char) : Nat :=
@@ -258,6 +259,25 @@ def fnvMix (h v : UInt64) : UInt64 := (h ^^^ v) * 0x100000001b3
 
 def i64bits (x : Int) : UInt64 := UInt64.ofNat (x % (u64Mod : Int)).toNat
 
+/-- the iterator-level model (Model/Iter.lean) over the four iterator shapes the harness also uses
+    (slice, chain split in the middle, chain split at 19 / 1, filter over `_`-padded buffers):
+    `none` if they all give the list-level outcome (they must: `C16Iter.parseFloatI_eq`) -/
+def iterShapesDisagree (E : Env) (F : FloatC) (int frac : List UInt8) (e : Int) : Option String :=
+  let ref := parseFloat E F int frac e
+  let pad (l : List UInt8) (before : Bool) : List UInt8 :=
+    l.foldr (fun c acc => if before then 95 :: c :: acc else c :: 95 :: acc) (if before then [95] else [])
+  let skip : UInt8 → Bool := fun c => c == 95
+  let outs : List (String × Outcome) := [
+    ("slice", It.parseFloatI E F It.sliceIter int It.sliceIter frac e),
+    ("chain-mid", It.parseFloatI E F It.chainIter (int.take (int.length / 2), int.drop (int.length / 2))
+                    It.chainIter (frac.take (frac.length / 3), frac.drop (frac.length / 3)) e),
+    ("chain-19", It.parseFloatI E F It.chainIter (int.take 19, int.drop 19) It.chainIter (frac.take 1, frac.drop 1) e),
+    ("filter", It.parseFloatI E F (It.filterIter skip) (pad int true) (It.filterIter skip) (pad frac false) e),
+    ("chunks", It.parseFloatI E F It.chunksIter [int.take 7, [], int.drop 7] It.chunksIter [[], frac] e)]
+  match outs.find? (fun p => p.2 != ref) with
+  | some p => some p.1
+  | none => none
+
 def runCase (E : Env) (line : String) : String :=
   let t := (line.splitOn " ").filter (· ≠ "")
   let arg (i : Nat) : String := t.getD i ""
@@ -280,6 +300,11 @@ def runCase (E : Env) (line : String) : String :=
       | .ok b => s!"v {hex b}"
       | .panic => "panic"
     let m := if parseFloatTraps E F int frac e then m ++ " !trap" else m
+    let m := if arg 0 == "it" then
+        (match iterShapesDisagree E F int frac e with
+         | some shape => s!"iter-model-disagrees {shape} " ++ m
+         | none => m)
+      else m
     let m := if arg 0 == "al" then
         let num := parseNumber int frac e
         let isSlow := match tryFastPath F (E.powFastPath F) (intPow10 E.cfg.compact E.pow.smallIntPow10) num with
@@ -291,6 +316,19 @@ def runCase (E : Env) (line : String) : String :=
         m ++ (if !E.cfg.alloc then " allocs 0" else s!" allocs {parseAllocs E F int frac e}")
       else m
     if validB int frac e then m ++ s!" | S v {hex (specParse F.fmt int frac e)}" else m
+  | "nf" =>
+    -- nf <fmt> <int_a> <int_b> <frac_a> <frac_b> <exp>: non-fused iterators (a, None, b, None, ...) through the
+    -- iterator-level model; the list-level value of the concatenation is printed after `| L` for comparison
+    let F := fmtOf (arg 1)
+    let ia := decodeBytes (arg 2); let ib := decodeBytes (arg 3)
+    let fa := decodeBytes (arg 4); let fb := decodeBytes (arg 5)
+    let e := parseInt (arg 6)
+    let script (a b : List UInt8) : List (Option UInt8) := a.map some ++ [none] ++ b.map some
+    let show' (o : Outcome) : String := match o with
+      | .ok b => s!"v {hex b}"
+      | .panic => "panic"
+    show' (It.parseFloatI E F It.scriptIter (script ia ib) It.scriptIter (script fa fb) e) ++
+      " | L " ++ show' (parseFloat E F (ia ++ ib) (fa ++ fb) e)
   | "pn" =>
     let n := parseNumber (decodeBytes (arg 1)) (decodeBytes (arg 2)) (parseInt (arg 3))
     s!"{n.mantissa} {n.exponent} {b01 n.manyDigits}" ++
